@@ -60,6 +60,9 @@ def rule_r1(rep, repo):
         for name, f in sorted(e3.reachable_methods(repo, c).items()):
             if name == "__init__" or e3.unconditional_raise(f) or f.is_static or f.is_classmethod:
                 continue
+            base = name.split(".")[0]
+            if base.startswith("_") and not (base.startswith("__") and base.endswith("__")):
+                continue  # private helpers are checked through the public methods that call them
             n += 1
             pr = e3.method_reads(repo, c, f, fields)
             seen = set()
@@ -105,8 +108,9 @@ def rule_r2(rep, repo, classes):
             # c (or an ancestor before plain_anc) redefines P non-trivially: inherited code from
             # classes at or above the plain definition must not read self._P directly
             owner = g.cls
+            live = e3.called_from_public(repo, c)
             for mname, f in meths.items():
-                if f.cls is None or f.cls == owner or mname in ("__init__",):
+                if f.cls is None or f.cls == owner or mname in ("__init__",) or f.qual not in live:
                     continue
                 if owner in repo.mro(f.cls):  # defined in a subclass of the overriding class: knows
                     continue
